@@ -44,6 +44,9 @@ type GraphNode struct {
 	SubjectAndKey           *x509.SubjectAndKey
 	childrenBySubjectAndKey map[subjectAndKeyFingerprint]*GraphEdgeSet
 	parentsBySubjectAndKey  map[subjectAndKeyFingerprint]*GraphEdgeSet
+	// danglingParents holds the edges to this node whose issuer node is not (yet)
+	// in the graph; they have no key to be filed under in parentsBySubjectAndKey.
+	danglingParents *GraphEdgeSet
 }
 
 // A GraphEdge is a certificate that joins two SubjectAndKeys.
@@ -122,6 +125,7 @@ func (g *Graph) AddCert(c *x509.Certificate) {
 		node.SubjectAndKey = sk
 		node.childrenBySubjectAndKey = make(map[subjectAndKeyFingerprint]*GraphEdgeSet)
 		node.parentsBySubjectAndKey = make(map[subjectAndKeyFingerprint]*GraphEdgeSet)
+		node.danglingParents = NewGraphEdgeSet()
 		g.nodes = append(g.nodes, node)
 		g.nodesBySubjectAndKey[skfp] = node
 
@@ -182,6 +186,7 @@ func (g *Graph) AddCert(c *x509.Certificate) {
 			g.missingIssuerNode[rawIssuer] = missingIssuerSet
 		}
 		missingIssuerSet.addOrPanic(edge)
+		node.danglingParents.addOrPanic(edge)
 	}
 
 	// If we added a new node, check if it issued an existing dangling edge.
@@ -221,6 +226,7 @@ func (g *Graph) AddCert(c *x509.Certificate) {
 			candidateEdge.child.parentsBySubjectAndKey[parentSkpf] = parentSet
 		}
 		parentSet.addOrPanic(candidateEdge)
+		candidateEdge.child.danglingParents.removeEdge(candidateCert.FingerprintSHA256)
 
 		// Record the edge as fixed so we can remove it from the missingIssuerNode
 		// map.
